@@ -276,7 +276,8 @@ public:
                 assert(false);
             }
         }
-        const bool u = b.upper() >= 0.0f && b.lower() <= 0.0f;
+        const bool u = a.maybe_nan || b.maybe_nan ||
+            (b.upper() >= 0.0f && b.lower() <= 0.0f);
         return Interval(out, u);
     }
 
